@@ -49,9 +49,10 @@ Proof. exact (conj dt_ok_true (conj first_ungated_all end_first_gate_true)). Qed
 From Peppi Require Import Gen.ArrowFrame Proofs.ArrowFrameLayout.
 (* ---- the hand-written Arrow glue of Frame / PortData / Data (src/frame/immutable/peppi.rs), regenerated (Gen/ArrowFrame.v) ----
    the export of the hand model IS the interpretation of the regenerated data_type / into_struct_array tables (children, their
-   order, the version gates around each push, the record each is built from), panics included; [end_present] excludes only
-   frame sets the parser never produces (no End columns from 3.0 on), where the hand model is stricter than the source *)
-Theorem C14_frame_export_from_source : forall v fr, end_present v fr ->
+   order, the version gates around each push, the record each is built from), panics included.  Unconditional: for EVERY version
+   and frame set, also the ones the parser never produces (no End columns from 3.0 to before 3.7: self.end is touched only under
+   version.gte(3, 7), in the source and in the hand model alike) *)
+Theorem C14_frame_export_from_source : forall v fr,
   arrow_frame v fr = arrow_frame_tbl arrow_frame_data_type arrow_frame_into v fr.
 Proof. exact arrow_frame_from_source. Qed.
 Theorem C14_port_export_from_source : forall v g, arrow_port v g = arrow_port_tbl arrow_port_data_type arrow_port_into v g.
